@@ -544,6 +544,33 @@ func runC16Race(t *testing.T, cases []map[string]interface{}, ev *vEvents) {
 		time.Sleep(80 * time.Millisecond) // abandoned reads finish
 		dw.Close()
 	}
+	// phase F: certificates for several users at the same time, in a deployment whose SSH extensions are templates over the
+	// user name (whatever the issuing path keeps between requests is shared between these)
+	{
+		cw := newWorld(vWorldOpts{CertCfg: []string{"password"}, WebUICfg: []string{"password"}, Ed25519: true,
+			SSHExt: []sshExtension{{Key: "login@example.com", Value: "$USERNAME"}, {Key: "role-$USERNAME", Value: "u=${USERNAME};fixed"}}})
+		cusers := []string{"alice", "bob", "carol"}
+		var wg5 syncWaitGroup
+		for k := 0; k < 9; k++ {
+			wg5.Add(1)
+			go func(k int) {
+				defer wg5.Done()
+				u := cusers[k%3]
+				ck := map[string]string{authCookieName: cw.mintCookie(u, AuthTypePassword, 0)}
+				for n := 0; n < 12; n++ {
+					q := vReq{Method: "POST", Path: "/certgen/" + u + "?type=ssh", Cookies: ck, PubKey: vSSHPub(&vUserEC.PublicKey), BodyType: "multipart",
+						Form: url.Values{"duration": {"1h"}}}
+					if n%3 == 2 {
+						q.Path, q.PubKey = "/certgen/"+u+"?type=x509", vPEMPub(&vUserEC.PublicKey)
+					}
+					cw.Do(q)
+				}
+			}(k)
+		}
+		wg5.Wait()
+		total += 9 * 12
+		cw.Close()
+	}
 	// phase E: event subscribers come and go while events are being published
 	{
 		saved := eventNotifier
